@@ -32,7 +32,7 @@ def run_seed(prop, seed, tier, keep_events=False):
 
 def _worker_batch(args):
     prop, seeds, tier = args
-    faulthandler.dump_traceback_later(300, exit=True)
+    faulthandler.dump_traceback_later(900, exit=True)
     import engines
     agg = {
         'n': 0, 'limit': 0, 'ambiguous': 0, 'sim_us': 0, 'steps': 0, 'nontrivial': 0,
@@ -232,7 +232,7 @@ def check(prop, tier, level, rule_text, components_real, components_stub, assump
         for _ in range(jobs * 2):
             submit()
         while pending:
-            done, _ = cf.wait(pending, timeout=330, return_when=cf.FIRST_COMPLETED)
+            done, _ = cf.wait(pending, timeout=960, return_when=cf.FIRST_COMPLETED)
             if not done:
                 harness_fail = 'worker batch exceeded wall timeout'
                 break
